@@ -159,6 +159,9 @@ func init() {
 		Body: func(c *fw.Ctx) {
 			var bases []string
 			bases = append(bases, Bases...)
+			// base STRINGS that a string-level entry point might pre-process differently from the parser: padded with
+			// non-ASCII white space (not stripped by the standard), white space only, controls only
+			bases = append(bases, "http://h/nb\u00a0", "\u3000http://h/p", "\u0085http://h/\u2028", " ", "\t\n", "\u00a0", "\x00\x1f ", "mailto:x\u3000")
 			t := 2
 			k := 2
 			if c.Thorough() {
